@@ -54,8 +54,8 @@ def candidate_lines(path):
                 in_comment = True
             continue
         if s.startswith("#"):
-            if re.match(r"#\s*if(def)?\b.*ROOTSIM_VERIF", s):
-                guard += 1
+            if re.match(r"#\s*if(def)?\b.*(ROOTSIM_VERIF|ROOTSIM_INCREMENTAL)", s) or re.match(r"#\s*ifndef\s+NDEBUG", s):
+                guard += 1  # not part of the shipped configuration
             elif guard and re.match(r"#\s*if", s):
                 guard += 1
             elif guard and re.match(r"#\s*endif", s):
